@@ -379,13 +379,17 @@ func bucket(n int) string {
 var currentCase atomic.Value
 var caseStart atomic.Int64
 
-func watchdog(viol func(violation)) {
+func watchdog(viol func(violation)) { watchdogFor("C18", "hang", viol) }
+
+// watchdogFor ends the process when a case does not return within 10 s (the
+// implementation hangs), after recording the case as a violation.
+func watchdogFor(prop, name string, viol func(violation)) {
 	for {
 		time.Sleep(500 * time.Millisecond)
 		st := caseStart.Load()
 		if st != 0 && time.Since(time.Unix(0, st)) > 10*time.Second {
 			q, _ := currentCase.Load().(string)
-			viol(violation{"C18", "hang", "x" + hex.EncodeToString([]byte(q)), "no result after 10s"})
+			viol(violation{prop, name, "x" + hex.EncodeToString([]byte(q)), "no result after 10s"})
 			fmt.Fprintln(os.Stderr, "HANG on case", strconv.Quote(q))
 			os.Exit(4)
 		}
